@@ -218,6 +218,7 @@ FEATURES: dict = {
                    ['ValveBiped.Bip01_L_Thigh', 0], ['ValveBiped.Bip01_L_Calf', 3], ['ValveBiped.Bip01_R_Thigh', 0],
                    ['ValveBiped.Bip01_R_Calf', 5]]),
         ('reverse_chain4', [['d', 1], ['c', 2], ['b', 3], ['a', None]]),
+        ('case_variants', [['Base', None], ['base', 0], ['BASE', 1], ['arm', 0], ['Arm', 3]]),     # distinct bones whose names differ only in case
     ],
     'renamed_bone': [('first', 0), ('second', 1)],
     'bone_name': [('plain', 'static_prop'), ('dotted', 'ValveBiped.Bip01_R_Hand'), ('space', 'with space'),
